@@ -141,6 +141,25 @@ var externalMutators = map[string][]int{ // full name -> indexes of arguments wr
 	"bytes.(*Buffer).Write": {-1}, "encoding/binary.Read": {2},
 }
 
+// pointer-receiver methods of other modules known not to write through the receiver
+var readOnlyPtrMethods = map[string]bool{
+	"(*crypto/rsa.PrivateKey).Public": true, "(*crypto/rsa.PrivateKey).Equal": true, "(*crypto/rsa.PrivateKey).Size": true, "(*crypto/rsa.PrivateKey).Validate": true,
+	"(*crypto/rsa.PublicKey).Size": true, "(*crypto/rsa.PublicKey).Equal": true,
+	"(*math/big.Int).Cmp": true, "(*math/big.Int).BitLen": true, "(*math/big.Int).Bytes": true, "(*math/big.Int).Sign": true,
+	"(*crypto/ecdh.PrivateKey).PublicKey": true, "(*crypto/ecdh.PrivateKey).Bytes": true, "(*crypto/ecdh.PrivateKey).ECDH": true, "(*crypto/ecdh.PublicKey).Bytes": true,
+	"(*filippo.io/edwards25519.Point).Bytes": true, "(*filippo.io/edwards25519.Point).BytesMontgomery": true,
+}
+
+// types documented as safe for concurrent use / immutable after construction
+func immutableType(full string) bool {
+	for _, pre := range []string{"(*encoding/base64.Encoding).", "(*encoding/base32.Encoding)."} {
+		if strings.HasPrefix(full, pre) {
+			return true
+		}
+	}
+	return strings.HasPrefix(full, "(*regexp.Regexp).") && full != "(*regexp.Regexp).Longest"
+}
+
 var mutatingMethodNames = map[string]bool{"Write": true, "WriteString": true, "WriteByte": true, "Reset": true, "Read": true, "Seek": true, "Grow": true,
 	"Truncate": true, "ReadFrom": true, "Set": true, "SetBytes": true, "Add": true, "Store": true, "Swap": true, "Lock": false, "Unlock": false}
 
@@ -371,6 +390,17 @@ func (a *analysis) call(c *ast.CallExpr) {
 	if recvExpr != nil && (fn.Name() == "Seal" || fn.Name() == "Open" || fn.Name() == "Sum") && len(c.Args) > 0 {
 		if p, ok := a.sharedRoot(c.Args[0]); ok {
 			a.record(c.Pos(), "call of "+fn.Name()+" appending to shared "+exprString(c.Args[0]), p)
+		}
+	}
+	// a method with a POINTER receiver outside this module, called on shared memory: it may
+	// write through the receiver unless it is known not to (e.g. (*rsa.PrivateKey).Precompute does)
+	if recvExpr != nil && !mutatingMethodNames[fn.Name()] {
+		if sig, ok := fn.Type().(*types.Signature); ok && sig.Recv() != nil {
+			if _, isPtr := sig.Recv().Type().(*types.Pointer); isPtr && !readOnlyPtrMethods[full] && !immutableType(full) {
+				if p, ok := a.sharedRoot(recvExpr); ok {
+					a.record(c.Pos(), "pointer-receiver method "+full+" (not known to be read-only) on shared "+exprString(recvExpr), p)
+				}
+			}
 		}
 	}
 	if recvExpr != nil && mutatingMethodNames[fn.Name()] {
